@@ -18,6 +18,7 @@ func init() { register("C04", checkC04) }
 var sm3IV = [8]uint32{0x7380166f, 0x4914b2b9, 0x172442d7, 0xda8a0600, 0xa96f30bc, 0x163138aa, 0xe38dee4d, 0xb0fb0e4e}
 
 func checkC04(c *Ctx) {
+	defer noGlobalAlias(c, "FX-C04-pure", [][2]string{{"sm3", "New"}}, "hash objects made by New share their buffered tail with each other")
 	defer noGlobalWrites(c, "FX-C04-pure", [][2]string{{"sm3", "New"}, {"sm3", "Sm3Sum"}, {"sm3", "(*SM3).Write"}, {"sm3", "(*SM3).Sum"}, {"sm3", "(*SM3).Reset"}},
 		"hash objects share state through the package — e.g. a template state whose tail slice every New/Reset copies by reference, or a pooled pad buffer")
 
@@ -771,6 +772,39 @@ func c04LenPad(c *Ctx, write, sum *ssa.Function) {
 		})
 	}
 	if pad == nil {
+		// another construction (a pre-sized buffer, a computed number of zeros): what can still be decided is the
+		// LENGTH of the padded tail — SM3 padding adds the 0x80 byte, the fewest zeros that bring the length to 56
+		// mod 64, and 8 length bytes: between 9 and 72 bytes. A function of package sm3 named pad that returns a byte
+		// slice is held to that by the bounds prover; one byte more (a whole extra zero block for a 55-byte tail)
+		// changes every digest of such messages.
+		if pf := c.Fn("sm3", "(*SM3).pad"); pf != nil && pf.Signature.Results().Len() == 1 && isByteSlice(pf.Signature.Results().At(0).Type()) {
+			lb := &LB{p: c.P, f: pf, UsedContracts: map[string]bool{}}
+			var tail ssa.Value
+			instrsOf(pf, func(_ *ssa.BasicBlock, in ssa.Instruction) {
+				if ld, ok := in.(*ssa.UnOp); ok && ld.Op == token.MUL && isByteSlice(ld.Type()) {
+					if fa, ok := ld.X.(*ssa.FieldAddr); ok && fa.X == ssa.Value(pf.Params[0]) && tail == nil {
+						tail = ld
+					}
+				}
+			})
+			okAll := tail != nil
+			for _, b := range pf.Blocks {
+				ret, isRet := b.Instrs[len(b.Instrs)-1].(*ssa.Return)
+				if !isRet || tail == nil {
+					continue
+				}
+				out, in := lb.lenLin(ret.Results[0]), lb.lenLin(tail)
+				if !lb.prove([]cons{ge(out, in.addScaled(linConst(9), 1)), le(out, in.addScaled(linConst(72), 1))}, b, nil, map[lvar]lin{}, 3) {
+					okAll = false
+				}
+			}
+			if okAll {
+				c.Undecided("K-C04-pad", fname(pf), "padding", "the padding is built in a form the rule does not recognise; proved only that it adds between 9 and 72 bytes", pf.Pos())
+			} else {
+				c.ViolatedHard("K-C04-pad", fname(pf), "padding", "the padding is built in a form the rule does not recognise, and it is not provable that it adds between 9 and 72 bytes to the unprocessed tail (0x80, the fewest zeros up to 56 mod 64, 8 length bytes): a tail of 55 bytes must be padded to exactly one block", pf.Pos())
+			}
+			return
+		}
 		c.Undecided("K-C04-pad", fname(sum), "padding", "no append of 0x80 reachable from Sum (padding idiom not recognised)", sum.Pos())
 		return
 	}
